@@ -48,7 +48,7 @@ def strategy_(draw, tier):
     return {"X": X, "y": y, "planted": planted, "projector": draw(st.booleans()),
             "estimator": draw(st.sampled_from(["default", "lr_noint", "ridge", "ridge1", "ridge50"])),
             "Xnew": gen.normal(draw, (5, f)) * draw(st.sampled_from([0.1, 1.0, 30.0])), "cseed": draw(gen.SEEDS),
-            "prior_use": draw(st.booleans())}
+            "prior_use": draw(st.booleans()), "np_flag": draw(st.integers(0, 3)) == 0}
 
 
 def strategy(tier):
@@ -69,6 +69,10 @@ def small_rot(rng, r, eps):
 
 def check(case, ctx):
     X, y, proj = case["X"], case["y"], case["projector"]
+    if case.get("np_flag"):
+        # a boolean that comes out of a NumPy array (e.g. a parameter grid) is still a boolean
+        proj = np.bool_(proj)
+        ctx.cls("flag=np.bool_")
     n, f = X.shape
     g = y.shape[1]
     ctx.cls("mode=%s" % ("projector" if proj else "padded"), "f%sg" % ("<" if f < g else "=" if f == g else ">"),
